@@ -635,24 +635,25 @@ func (c *Ctx) replaySchemata() int64 {
 	type sc struct {
 		name, src string
 		accept    bool
+		line      int // > 0: the line the first diagnostic must name (the first token at which the text stops being a viable prefix)
 	}
 	var list []sc
 	rep := strings.Repeat
 	kw := func(k string) string { return keywordSpelling[k] }
 	for _, n := range []int{1, 10, 100, 1000, 10000} {
 		list = append(list,
-			sc{fmt.Sprintf("parens-%d", n), rep("(", n) + "1" + rep(")", n) + ";", true},
-			sc{fmt.Sprintf("brackets-%d", n), rep("[", n) + rep("]", n) + ";", true},
-			sc{fmt.Sprintf("blocks-%d", n), rep("{ ", n) + rep("} ", n), true},
-			sc{fmt.Sprintf("unary-%d", n), rep("- ", n) + "1;", true},
-			sc{fmt.Sprintf("calls-%d", n), "a" + rep("()", n) + ";", true},
-			sc{fmt.Sprintf("index-%d", n), "a" + rep("[0]", n) + ";", true},
-			sc{fmt.Sprintf("props-%d", n), "a" + rep(".k", n) + ";", true},
-			sc{fmt.Sprintf("ifs-%d", n), rep(kw("if")+" (a) ", n) + ";", false},
-			sc{fmt.Sprintf("if-else-chain-%d", n), rep(kw("if")+" (a) b; "+kw("else")+" ", n) + "c;", true},
-			sc{fmt.Sprintf("unclosed-parens-%d", n), rep("(", n) + "1;", false},
-			sc{fmt.Sprintf("binary-chain-%d", n), "1" + rep(" + 1", n) + ";", true},
-			sc{fmt.Sprintf("assign-chain-%d", n), rep("a = ", n) + "1;", true},
+			sc{fmt.Sprintf("parens-%d", n), rep("(", n) + "1" + rep(")", n) + ";", true, 0},
+			sc{fmt.Sprintf("brackets-%d", n), rep("[", n) + rep("]", n) + ";", true, 0},
+			sc{fmt.Sprintf("blocks-%d", n), rep("{ ", n) + rep("} ", n), true, 0},
+			sc{fmt.Sprintf("unary-%d", n), rep("- ", n) + "1;", true, 0},
+			sc{fmt.Sprintf("calls-%d", n), "a" + rep("()", n) + ";", true, 0},
+			sc{fmt.Sprintf("index-%d", n), "a" + rep("[0]", n) + ";", true, 0},
+			sc{fmt.Sprintf("props-%d", n), "a" + rep(".k", n) + ";", true, 0},
+			sc{fmt.Sprintf("ifs-%d", n), rep(kw("if")+" (a) ", n) + ";", false, 0},
+			sc{fmt.Sprintf("if-else-chain-%d", n), rep(kw("if")+" (a) b; "+kw("else")+" ", n) + "c;", true, 0},
+			sc{fmt.Sprintf("unclosed-parens-%d", n), rep("(", n) + "1;", false, 0},
+			sc{fmt.Sprintf("binary-chain-%d", n), "1" + rep(" + 1", n) + ";", true, 0},
+			sc{fmt.Sprintf("assign-chain-%d", n), rep("a = ", n) + "1;", true, 0},
 		)
 	}
 	params := func(n int) string {
@@ -662,7 +663,30 @@ func (c *Ctx) replaySchemata() int64 {
 		}
 		return kw("fun") + " f(" + strings.Join(ps, ", ") + ") { }"
 	}
-	list = append(list, sc{"params-254", params(254), true}, sc{"params-255", params(255), true}, sc{"params-256", params(256), false}, sc{"params-300", params(300), false})
+	list = append(list, sc{"params-254", params(254), true, 0}, sc{"params-255", params(255), true, 0}, sc{"params-256", params(256), false, 1}, sc{"params-300", params(300), false, 1})
+	// the same lists broken over lines, per parameters a line: the 256th parameter is the offending token
+	paramsLines := func(n, per int) string {
+		var b strings.Builder
+		b.WriteString(kw("fun") + " f(\n")
+		for i := 0; i < n; i++ {
+			fmt.Fprintf(&b, "p%d", i)
+			if i+1 < n {
+				b.WriteString(",")
+			}
+			if (i+1)%per == 0 || i+1 == n {
+				b.WriteString("\n")
+			} else {
+				b.WriteString(" ")
+			}
+		}
+		b.WriteString(") {\n}\n")
+		return b.String()
+	}
+	for _, per := range []int{1, 8, 255} {
+		list = append(list, sc{fmt.Sprintf("params-255-lines%d", per), paramsLines(255, per), true, 0},
+			sc{fmt.Sprintf("params-256-lines%d", per), paramsLines(256, per), false, 2 + 255/per},
+			sc{fmt.Sprintf("params-300-lines%d", per), paramsLines(300, per), false, 2 + 255/per})
+	}
 	names := make([]string, 0, len(builtinSpelling))
 	for k := range builtinSpelling {
 		names = append(names, k)
@@ -670,15 +694,15 @@ func (c *Ctx) replaySchemata() int64 {
 	sort.Strings(names)
 	for _, k := range names {
 		s := builtinSpelling[k]
-		list = append(list, sc{"reserved-var-" + k, kw("var") + " " + s + " = 1;", false}, sc{"reserved-fun-" + k, kw("fun") + " " + s + "() { }", false},
-			sc{"reserved-second-var-" + k, kw("var") + " a = 1, " + s + ";", false},
-			sc{"reserved-param-" + k, kw("fun") + " f(" + s + ") { }", true}, sc{"reserved-assign-" + k, s + " = 1;", true}, sc{"reserved-property-" + k, "a." + s + ";", true})
+		list = append(list, sc{"reserved-var-" + k, kw("var") + " " + s + " = 1;", false, 0}, sc{"reserved-fun-" + k, kw("fun") + " " + s + "() { }", false, 0},
+			sc{"reserved-second-var-" + k, kw("var") + " a = 1, " + s + ";", false, 0},
+			sc{"reserved-param-" + k, kw("fun") + " f(" + s + ") { }", true, 0}, sc{"reserved-assign-" + k, s + " = 1;", true, 0}, sc{"reserved-property-" + k, "a." + s + ";", true, 0})
 	}
 	for _, lhs := range []string{"1", "\"s\"", "(a)", "a + b", "f()", "-a", "[1]", "!a", "a == b", kw("true"), kw("nil"), "a.b()", "(a.b)", "{}"} {
-		list = append(list, sc{"assign-to:" + lhs, kw("print") + " " + lhs + " = 1;", false})
+		list = append(list, sc{"assign-to:" + lhs, kw("print") + " " + lhs + " = 1;", false, 0})
 	}
 	for _, lhs := range []string{"a", "a[0]", "a.b", "a[0].b", "a.b[0]", "f().k", "f()[0]", "a[b = 1]"} {
-		list = append(list, sc{"assign-to:" + lhs, lhs + " = 1;", true})
+		list = append(list, sc{"assign-to:" + lhs, lhs + " = 1;", true, 0})
 	}
 	cases := make(chan *Case, 64)
 	go func() {
@@ -699,6 +723,8 @@ func (c *Ctx) replaySchemata() int64 {
 			what = "rejected-valid"
 		case !s.accept && !r.HadErr:
 			what = "accepted-invalid"
+		case s.line > 0 && (len(staticDiagLines(r)) == 0 || staticDiagLines(r)[0] != s.line):
+			what = fmt.Sprintf("first-diagnostic-line:%v-expected:%d", staticDiagLines(r), s.line)
 		}
 		if what != "" {
 			c.violation(c.Prop+"|schema|"+strings.SplitN(s.name, "-", 2)[0]+"|"+what, s.name, map[string]interface{}{"mode": "parse", "src": clip(s.src, 400), "detail": what,
